@@ -95,8 +95,23 @@ func genC12Case(t *rapid.T) C12Case {
 			q.Attrs = append(q.Attrs, spsim.QAttr{Name: a.Name, NameFormat: rapid.SampledFrom([]string{"urn:oasis:names:tc:SAML:2.0:attrname-format:uri", A, "urn:other"}).Draw(t, "wrongfmt"), FriendlyName: A})
 		case k == 3:
 			q.Attrs = append(q.Attrs, spsim.QAttr{Name: rapid.SampledFrom([]string{"Email", "UserName", "SurName", "Nonexistent", "email"}).Draw(t, "stdname"), NameFormat: "urn:oasis:names:tc:SAML:2.0:attrname-format:basic", FriendlyName: A})
+		case k == 4 && len(own) > 0:
+			// another Name, but the FriendlyName (and format) of one of the user's attributes: FriendlyName is a label, not a key
+			a := own[rapid.IntRange(0, len(own)-1).Draw(t, "ownidx")]
+			for _, o := range own {
+				if o.FriendlyName != "" {
+					a = o
+				}
+			}
+			q.Attrs = append(q.Attrs, spsim.QAttr{Name: "Other" + fmt.Sprint(i), NameFormat: a.NameFormat, FriendlyName: a.FriendlyName})
 		default:
 			q.Attrs = append(q.Attrs, spsim.QAttr{Name: "Nonexistent" + fmt.Sprint(i), NameFormat: A, FriendlyName: "x"})
+		}
+	}
+	// requested attributes that do match may carry any FriendlyName as well
+	for i := range q.Attrs {
+		if q.Attrs[i].FriendlyName == A && rapid.IntRange(0, 3).Draw(t, "qfriendly") == 0 {
+			q.Attrs[i].FriendlyName = rapid.SampledFrom([]string{"Custom", "mail", "", "x"}).Draw(t, "qfriendlyv")
 		}
 	}
 	c.DestKind = rapid.SampledFrom([]string{"absent", "absent", "absent", "attribute", "attribute", "attribute", "sso", "slo", "foreign", "attribute-slash", "empty", "issuer-plus-path", "issuer-plus-path", "double-slash", "metadata"}).Draw(t, "destkind")
